@@ -6,7 +6,7 @@ import random
 
 from vlib import docs as D
 from vlib import gt
-from vlib.par import pmap
+from vlib.par import pmap, timeout_failure
 
 PROPERTY = 'C14'
 LEVEL = 'other'
@@ -174,6 +174,10 @@ def _explicit_type_cases():
     return cases
 
 
+def _case_timeout(case, seconds):
+    return timeout_failure('C14')({k: v for k, v in case.items() if k not in ('a', 'b')}, seconds)[0]
+
+
 def _run_case(case):
     _ensure_mimetypes()
     tf = gt.TempFiles()
@@ -242,14 +246,14 @@ def bounded(tier, seed, repo_root):
     for i in range(n):
         a, b = rnd.choice(docs), rnd.choice(docs)
         jobs.append((a, b, gt.OPTION_COMBOS[i % 9]))
-    res = pmap(_alias_job, jobs, repo_root)
+    res = pmap(_alias_job, jobs, repo_root, job_timeout=120, on_timeout=timeout_failure('C14'))
     fails = [f for fs in res for f in fs]
     cases = _explicit_type_cases()
-    for r in pmap(_run_case, cases, repo_root):
+    for r in pmap(_run_case, cases, repo_root, job_timeout=120, on_timeout=_case_timeout):
         if r:
             fails.append(r)
     mcases = _mode_cases()
-    for r in pmap(_run_mode_case, mcases, repo_root):
+    for r in pmap(_run_mode_case, mcases, repo_root, job_timeout=120, on_timeout=_case_timeout):
         if r:
             fails.append(r)
     return [{
